@@ -310,6 +310,19 @@ func (m *Manager) AssignAddress(ctx context.Context, sessionID string, ipv4PoolI
 		}
 
 		m.mu.Lock()
+		if cur, ok := m.sessions[sessionID]; !ok || cur != session || session.terminating {
+			// The session was terminated while the allocator call was in flight
+			// (the lock is not held across it): nobody would release this address
+			// for it any more, so hand it straight back.
+			m.mu.Unlock()
+			if err := m.allocator.ReleaseIPv4(ctx, ip); err != nil {
+				m.logger.Warn("Failed to release IPv4",
+					zap.String("session_id", sessionID),
+					zap.Error(err),
+				)
+			}
+			return fmt.Errorf("session terminated during address assignment: %s", sessionID)
+		}
 		session.IPv4 = ip
 		session.SubnetMask = mask
 		session.Gateway = gateway
@@ -328,6 +341,19 @@ func (m *Manager) AssignAddress(ctx context.Context, sessionID string, ipv4PoolI
 			)
 		} else {
 			m.mu.Lock()
+			if cur, ok := m.sessions[sessionID]; !ok || cur != session || session.terminating {
+				// Terminated while the allocator call was in flight: see above
+				m.mu.Unlock()
+				if ip != nil {
+					if err := m.allocator.ReleaseIPv6(ctx, ip); err != nil {
+						m.logger.Warn("Failed to release IPv6",
+							zap.String("session_id", sessionID),
+							zap.Error(err),
+						)
+					}
+				}
+				return fmt.Errorf("session terminated during address assignment: %s", sessionID)
+			}
 			session.IPv6 = ip
 			session.IPv6Prefix = prefix
 			if ip != nil {
